@@ -1,52 +1,479 @@
+// gcacheck decides the properties C01..C20 of glowlabs-org/gca-backend by
+// static analysis of the repository's current source (see /verif/DESIGN.md).
+//
+//	gcacheck -prop C13 -tier quick      one property (what MANIFEST.json registers)
+//	gcacheck -prop all -tier quick      every property (used by the self test)
+//
+// Exit status: 0 every obligation proved (or a listed known finding); 1 at least
+// one violation (a line "VIOLATION property=<id> replay=<path>" is printed);
+// 2 undecided (an anchor or shape was not recognised; no VIOLATION line).
 package main
 
 import (
+	"bufio"
+	"encoding/json"
 	"flag"
 	"fmt"
 	"os"
+	"os/exec"
+	"path/filepath"
+	"sort"
+	"strconv"
 	"strings"
+	"sync"
+	"time"
 
 	"gcacheck/internal/an"
+	"gcacheck/internal/props"
 
 	"golang.org/x/tools/go/ssa"
 )
 
 func main() {
 	repo := flag.String("repo", "/repo", "repository under analysis")
-	cfgID := flag.String("config", "K1", "build configuration")
+	verif := flag.String("verif", "/verif", "verification directory (evidence, known findings)")
+	prop := flag.String("prop", "", "property id (C01..C20) or 'all'")
+	tier := flag.String("tier", "", "quick or thorough (default: $VERIF_TIER or quick)")
+	worker := flag.Bool("worker", false, "internal: analyse one configuration and print JSON")
+	cfgID := flag.String("config", "K1", "internal/debug: build configuration")
 	dump := flag.String("dump", "", "debug: dump terms and facts of functions whose name contains this string")
+	noEvidence := flag.Bool("no-evidence", false, "do not write evidence files (self test on scratch copies)")
 	flag.Parse()
-	cfg, ok := an.ConfigByID(*cfgID)
-	if !ok {
-		fmt.Fprintln(os.Stderr, "unknown config")
+
+	if *tier == "" {
+		*tier = os.Getenv("VERIF_TIER")
+	}
+	if *tier != "thorough" {
+		*tier = "quick"
+	}
+	if *dump != "" {
+		debugDump(*repo, *cfgID, *dump)
+		return
+	}
+	if *worker {
+		runWorker(*repo, *cfgID, *prop, *tier)
+		return
+	}
+	if *prop == "" {
+		fmt.Fprintln(os.Stderr, "usage: gcacheck -prop Cxx|all [-tier quick|thorough]")
 		os.Exit(2)
 	}
-	p, err := an.Load(*repo, cfg)
+	os.Exit(runParent(*repo, *verif, *prop, *tier, *noEvidence))
+}
+
+func selected(prop string) []*an.PropertyCheck {
+	var out []*an.PropertyCheck
+	for _, pc := range props.All() {
+		if prop == "all" || pc.ID == prop {
+			out = append(out, pc)
+		}
+	}
+	return out
+}
+
+// ---- worker ---------------------------------------------------------------------
+
+func runWorker(repo, cfgID, prop, tier string) {
+	cfg, ok := an.ConfigByID(cfgID)
+	if !ok {
+		fmt.Fprintln(os.Stderr, "unknown config", cfgID)
+		os.Exit(3)
+	}
+	enc := json.NewEncoder(os.Stdout)
+	checks := selected(prop)
+	t0 := time.Now()
+	p, err := an.Load(repo, cfg)
+	if err != nil {
+		for _, pc := range checks {
+			enc.Encode(&an.Result{Prop: pc.ID, Config: cfgID, Error: err.Error()})
+		}
+		return
+	}
+	if tier == "thorough" {
+		p.SetInlineBound(8)
+	}
+	loadS := time.Since(t0).Seconds()
+	for _, pc := range checks {
+		t1 := time.Now()
+		c := an.NewCtx(p, pc.ID, tier)
+		func() {
+			defer func() {
+				if r := recover(); r != nil {
+					c.R.Error = fmt.Sprintf("checker panic: %v", r)
+				}
+			}()
+			pc.Run(c)
+		}()
+		c.Finish()
+		c.R.WallS = time.Since(t1).Seconds() + loadS
+		enc.Encode(c.R)
+	}
+}
+
+// ---- parent ---------------------------------------------------------------------
+
+type knownFinding struct {
+	Prop string
+	Key  string
+	What string
+}
+
+func loadKnown(verif string) (known []knownFinding, fixed []string) {
+	f, err := os.Open(filepath.Join(verif, "known_findings.txt"))
+	if err != nil {
+		return nil, nil
+	}
+	defer f.Close()
+	sc := bufio.NewScanner(f)
+	for sc.Scan() {
+		line := strings.TrimSpace(sc.Text())
+		switch {
+		case strings.HasPrefix(line, "known:"):
+			rest := strings.Fields(strings.TrimPrefix(line, "known:"))
+			kf := knownFinding{}
+			var what []string
+			for _, w := range rest {
+				switch {
+				case strings.HasPrefix(w, "property=") && kf.Prop == "":
+					kf.Prop = strings.TrimPrefix(w, "property=")
+				case strings.HasPrefix(w, "key=") && kf.Key == "":
+					kf.Key = strings.TrimPrefix(w, "key=")
+				default:
+					what = append(what, w)
+				}
+			}
+			kf.What = strings.Join(what, " ")
+			known = append(known, kf)
+		case strings.HasPrefix(line, "fixed:"):
+			fixed = append(fixed, line)
+		}
+	}
+	return known, fixed
+}
+
+func runParent(repo, verif, prop, tier string, noEvidence bool) int {
+	checks := selected(prop)
+	if len(checks) == 0 {
+		fmt.Fprintln(os.Stderr, "unknown property", prop)
+		return 2
+	}
+	cfgs := []string{"K1", "K2"}
+	if tier == "thorough" {
+		cfgs = []string{"K1", "K2", "K3", "K4", "K5"}
+	}
+	self, _ := os.Executable()
+	t0 := time.Now()
+	results := map[string]map[string]*an.Result{} // prop -> config -> result
+	var mu sync.Mutex
+	var wg sync.WaitGroup
+	sem := make(chan struct{}, 3)
+	for _, cfg := range cfgs {
+		wg.Add(1)
+		go func(cfg string) {
+			defer wg.Done()
+			sem <- struct{}{}
+			defer func() { <-sem }()
+			cmd := exec.Command(self, "-worker", "-repo", repo, "-config", cfg, "-prop", prop, "-tier", tier)
+			cmd.Stderr = os.Stderr
+			out, err := cmd.Output()
+			dec := json.NewDecoder(strings.NewReader(string(out)))
+			got := 0
+			for {
+				var r an.Result
+				if e := dec.Decode(&r); e != nil {
+					break
+				}
+				got++
+				mu.Lock()
+				if results[r.Prop] == nil {
+					results[r.Prop] = map[string]*an.Result{}
+				}
+				rr := r
+				results[r.Prop][cfg] = &rr
+				mu.Unlock()
+			}
+			if err != nil || got == 0 {
+				mu.Lock()
+				for _, pc := range checks {
+					if results[pc.ID] == nil {
+						results[pc.ID] = map[string]*an.Result{}
+					}
+					if results[pc.ID][cfg] == nil {
+						results[pc.ID][cfg] = &an.Result{Prop: pc.ID, Config: cfg, Error: fmt.Sprintf("worker failed: %v", err)}
+					}
+				}
+				mu.Unlock()
+			}
+		}(cfg)
+	}
+	wg.Wait()
+	wall := time.Since(t0).Seconds()
+	known, fixed := loadKnown(verif)
+	seed, _ := strconv.Atoi(os.Getenv("VERIF_SEED"))
+
+	exit := 0
+	for _, pc := range checks {
+		code := report(pc, results[pc.ID], cfgs, tier, seed, wall, verif, known, fixed, noEvidence)
+		if code == 1 || (code == 2 && exit == 0) {
+			exit = code
+		}
+	}
+	return exit
+}
+
+type evidence struct {
+	PropertyID  string                 `json:"property_id"`
+	Tier        string                 `json:"tier"`
+	Seed        int                    `json:"seed"`
+	Level       string                 `json:"level"`
+	Coverage    map[string]interface{} `json:"coverage"`
+	Assumptions []string               `json:"assumptions"`
+	WallS       float64                `json:"wall_s"`
+	Violations  int                    `json:"violations"`
+}
+
+func report(pc *an.PropertyCheck, byCfg map[string]*an.Result, cfgs []string, tier string, seed int, wall float64, verif string,
+	known []knownFinding, fixed []string, noEvidence bool) int {
+
+	type agg struct {
+		o    an.Obligation
+		cfgs []string
+	}
+	merged := map[string]*agg{}
+	var order []string
+	var errs []string
+	perCfg := map[string]interface{}{}
+	instances := map[string]int{}
+	floors := map[string]int{}
+	analysed := map[string]bool{}
+	for _, cfg := range cfgs {
+		r := byCfg[cfg]
+		if r == nil {
+			errs = append(errs, cfg+": no result")
+			continue
+		}
+		if r.Error != "" {
+			errs = append(errs, cfg+": "+r.Error)
+		}
+		np, nv, nu, nn := 0, 0, 0, 0
+		for _, o := range r.Obls {
+			switch o.Verdict {
+			case an.Proved:
+				np++
+			case an.Violated:
+				nv++
+			case an.Undecided:
+				nu++
+			case an.Note:
+				nn++
+			}
+			k := o.Verdict + "|" + o.Rule + "|" + o.Key + "|" + o.Desc
+			if a, ok := merged[k]; ok {
+				a.cfgs = append(a.cfgs, cfg)
+			} else {
+				merged[k] = &agg{o: o, cfgs: []string{cfg}}
+				order = append(order, k)
+			}
+		}
+		for k, v := range r.Instances {
+			if v > instances[k] {
+				instances[k] = v
+			}
+		}
+		for k, v := range r.Floors {
+			floors[k] = v
+		}
+		for _, f := range r.Analysed {
+			analysed[f] = true
+		}
+		perCfg[cfg] = map[string]interface{}{"packages": r.Packages, "functions_loaded": r.Funcs, "callgraph_edges": r.Edges,
+			"functions_in_scope": len(r.Analysed), "proved": np, "violated": nv, "undecided": nu, "notes": nn, "wall_s": r.WallS}
+	}
+
+	var violations, undecided, notes, provedL, knownHits []an.Obligation
+	for _, k := range order {
+		a := merged[k]
+		o := a.o
+		o.Config = strings.Join(a.cfgs, ",")
+		switch o.Verdict {
+		case an.Violated:
+			isKnown := false
+			for _, kf := range known {
+				if kf.Prop == pc.ID && kf.Key == o.Rule+"|"+o.Key {
+					isKnown = true
+					fmt.Printf("KNOWN-FINDING: property=%s %s\n", pc.ID, kf.What)
+				}
+			}
+			if isKnown {
+				knownHits = append(knownHits, o)
+			} else {
+				violations = append(violations, o)
+			}
+		case an.Undecided:
+			undecided = append(undecided, o)
+		case an.Note:
+			notes = append(notes, o)
+		case an.Proved:
+			provedL = append(provedL, o)
+		}
+	}
+
+	nObl := len(provedL) + len(violations) + len(undecided) + len(knownHits)
+	fmt.Printf("%s %s [%s, configs %s]: %d obligations: %d proved, %d violated, %d undecided, %d known findings, %d notes (%.1fs)\n",
+		pc.ID, pc.Title, tier, strings.Join(cfgs, "+"), nObl, len(provedL), len(violations), len(undecided), len(knownHits), len(notes), wall)
+
+	exit := 0
+	replayPath := filepath.Join(verif, "out", pc.ID+".violations.txt")
+	if len(violations) > 0 {
+		exit = 1
+		var sb strings.Builder
+		for _, o := range violations {
+			line := fmt.Sprintf("%s: %s [%s] %s -- %s (configs %s; key %s|%s)", o.Pos, o.Func, o.Rule, o.Desc, o.Why, o.Config, o.Rule, o.Key)
+			fmt.Println("  violated:", line)
+			sb.WriteString(line + "\n")
+		}
+		if !noEvidence {
+			os.MkdirAll(filepath.Dir(replayPath), 0755)
+			os.WriteFile(replayPath, []byte(sb.String()), 0644)
+		}
+		fmt.Printf("VIOLATION property=%s replay=%s\n", pc.ID, replayPath)
+	} else if !noEvidence {
+		os.Remove(replayPath)
+	}
+	if len(undecided) > 0 || len(errs) > 0 {
+		for _, o := range undecided {
+			fmt.Printf("  undecided: %s: %s [%s] %s -- %s\n", o.Pos, o.Func, o.Rule, o.Desc, o.Why)
+		}
+		for _, e := range errs {
+			fmt.Println("  error:", e)
+		}
+		reason := "shape-not-recognised"
+		if len(errs) > 0 {
+			reason = "analysis-error"
+		}
+		fmt.Printf("UNDECIDED property=%s reason=%s count=%d\n", pc.ID, reason, len(undecided)+len(errs))
+		if exit == 0 {
+			exit = 2
+		}
+	}
+
+	if noEvidence {
+		return exit
+	}
+	// ---- evidence ----
+	sample := func(l []an.Obligation, n int) []an.Obligation {
+		if len(l) <= n {
+			return l
+		}
+		// spread the samples over the rules
+		seen := map[string]int{}
+		var out []an.Obligation
+		for _, o := range l {
+			if seen[o.Rule] < 2 && len(out) < n {
+				out = append(out, o)
+				seen[o.Rule]++
+			}
+		}
+		return out
+	}
+	distinct := map[string]bool{}
+	rules := map[string]int{}
+	for _, l := range [][]an.Obligation{provedL, violations, undecided, knownHits} {
+		for _, o := range l {
+			distinct[o.Rule+"|"+o.Key] = true
+			rules[o.Rule]++
+		}
+	}
+	var analysedL []string
+	for f := range analysed {
+		analysedL = append(analysedL, f)
+	}
+	sort.Strings(analysedL)
+	var samples []interface{}
+	for _, o := range sample(provedL, 12) {
+		samples = append(samples, o)
+	}
+	for _, o := range violations {
+		samples = append(samples, o)
+	}
+	for _, o := range undecided {
+		samples = append(samples, o)
+	}
+	if len(samples) == 0 {
+		samples = append(samples, map[string]string{"note": "no obligations were produced", "errors": strings.Join(errs, "; ")})
+	}
+	all := tier == "thorough"
+	cov := map[string]interface{}{
+		"explanation":          pc.Explanation,
+		"technique":            "static analysis: " + pc.Engines,
+		"rule":                 "an obligation is one construct (call site, store, index, exit edge, predicate, codec field) at which a rule instance must hold; distinct = distinct (rule, construct key); all are non-trivial by construction (each needs a dominance, dataflow, predicate-equivalence or grammar argument)",
+		"evaluations":          nObl,
+		"distinct_nontrivial":  len(distinct),
+		"obligations":          nObl,
+		"discharged":           len(provedL),
+		"violated":             len(violations),
+		"undecided":            len(undecided),
+		"known_findings":       knownHits,
+		"notes":                notes,
+		"obligations_per_rule": rules,
+		"rule_instances":       instances,
+		"rule_floors":          floors,
+		"configurations":       perCfg,
+		"functions_in_scope":   analysedL,
+		"samples":              samples,
+		"exhaustive":           false,
+		"checker_cmd":          "checker/bin/gcacheck -prop " + pc.ID + " -tier " + tier,
+		"trusted_base":         pc.Assumptions,
+		"errors":               errs,
+		"fixed_defects_listed": fixed,
+	}
+	if all {
+		cov["all_obligations"] = append(append(append([]an.Obligation{}, provedL...), violations...), undecided...)
+	}
+	ev := evidence{PropertyID: pc.ID, Tier: tier, Seed: seed, Level: "other", Coverage: cov, Assumptions: pc.Assumptions,
+		WallS: wall, Violations: len(violations)}
+	os.MkdirAll(filepath.Join(verif, "evidence"), 0755)
+	b, _ := json.MarshalIndent(ev, "", " ")
+	if err := os.WriteFile(filepath.Join(verif, "evidence", pc.ID+".json"), b, 0644); err != nil {
+		fmt.Fprintln(os.Stderr, "cannot write evidence:", err)
+		if exit == 0 {
+			exit = 2
+		}
+	}
+	return exit
+}
+
+// ---- debug ----------------------------------------------------------------------
+
+func debugDump(repo, cfgID, pat string) {
+	cfg, _ := an.ConfigByID(cfgID)
+	p, err := an.Load(repo, cfg)
 	if err != nil {
 		fmt.Fprintln(os.Stderr, err)
 		os.Exit(2)
 	}
 	fmt.Printf("loaded %s: %d packages, %d functions, %d call edges, int=%d bits\n", cfg.ID, p.NumPackages, p.NumFuncs, p.NumEdges, p.IntBits)
-	if *dump != "" {
-		for _, fn := range p.SrcFuncs() {
-			if !strings.Contains(fn.String(), *dump) {
-				continue
+	for _, fn := range p.SrcFuncs() {
+		if !strings.Contains(fn.String(), pat) {
+			continue
+		}
+		fi := p.Info(fn)
+		fmt.Println("==", an.FuncName(fn))
+		e := p.Effect(fn)
+		fmt.Println("  writes:", e.WritesSorted(), "locks:", e.Locks, "blocks:", e.Blocks, "pure:", e.Pure(), "fresh:", e.Fresh)
+		for _, a := range p.AccessesOf(fn) {
+			fmt.Printf("  access %s %s write=%v %s\n", fi.ID(a.Instr), a.Cls, a.Write, a.What)
+		}
+		for _, b := range fn.Blocks {
+			fmt.Printf(" block %d  facts:\n", b.Index)
+			for _, f := range fi.FactsAtBlock(b).Sorted() {
+				fmt.Println("     ", f)
 			}
-			fi := p.Info(fn)
-			fmt.Println("==", an.FuncName(fn))
-			e := p.Effect(fn)
-			fmt.Println("  writes:", e.WritesSorted(), "locks:", e.Locks, "blocks:", e.Blocks, "pure:", e.Pure(), "fresh:", e.Fresh)
-			for _, b := range fn.Blocks {
-				fmt.Printf(" block %d  facts:\n", b.Index)
-				for _, f := range fi.FactsAtBlock(b).Sorted() {
-					fmt.Println("     ", f)
-				}
-				for _, in := range b.Instrs {
-					if v, ok := in.(ssa.Value); ok {
-						fmt.Printf("   %s %s = %s\n        %s\n", fi.ID(in), v.Name(), in, fi.Term(v))
-					} else {
-						fmt.Printf("   %s %s\n", fi.ID(in), in)
-					}
+			for _, in := range b.Instrs {
+				if v, ok := in.(ssa.Value); ok {
+					fmt.Printf("   %s %s = %s\n        %s\n", fi.ID(in), v.Name(), in, fi.Term(v))
+				} else {
+					fmt.Printf("   %s %s\n", fi.ID(in), in)
 				}
 			}
 		}
